@@ -84,10 +84,13 @@ func Loop(r lineReader, p Parser, vm *vm.Type, doOut bool) {
 		input += sep + line
 		sep = "\n"
 
-		if blocksOpen == 0 && quotesOpen%2 == 0 && bracketsOpen == 0 {
+		// a line with a stray closing brace or bracket is a statement of its own
+		// (the parser reports it); it must not keep later statements waiting
+		if blocksOpen <= 0 && quotesOpen%2 == 0 && bracketsOpen <= 0 {
 			processInput(input, p, vm, doOut)
 			sep = ""
 			input = ""
+			blocksOpen, bracketsOpen = 0, 0
 		}
 
 		if err != nil { // the last line had no line break
